@@ -391,7 +391,7 @@ func boostLIL(t *rapid.T) (map[string]interface{}, []Step, string) {
 func boostFilter(t *rapid.T) (map[string]interface{}, []Step, string, []Cond) {
 	k1 := rapid.SampledFrom(shapeKeys).Draw(t, "k1")
 	fkeys := []string{"a", "b", "c"}
-	vals := []interface{}{"x", "y", true, false, float64(1), float64(2)}
+	vals := []interface{}{"x", "y", true, false, float64(1), float64(2), float64(4000000001), float64(4000000002), float64(1696291200), float64(1696291201), 0.1, 0.10000000001}
 	n := rapid.IntRange(2, 5).Draw(t, "n")
 	l := make([]interface{}, n)
 	for i := range l {
